@@ -60,9 +60,9 @@ const B = int64(wh.B)
 
 // Dmg is one damage applied to the old build after it was signed and diffed.
 type Dmg struct {
-	Kind string `json:"kind"` // flip | truncate | extend | delete
+	Kind string `json:"kind"` // flip | twin | truncate | extend | delete
 	Path string `json:"path"`
-	N    int64  `json:"n"` // flip: byte offset (bit 0 is inverted); truncate: new length; extend: bytes appended
+	N    int64  `json:"n"` // flip: byte offset (bit 0 is inverted); twin: block index (block replaced by its weak twin); truncate: new length; extend: bytes appended
 }
 
 // Case is the replay artefact.
@@ -80,7 +80,7 @@ func main() {
 	runner.Main(runner.Config{
 		ID:    "C09",
 		Level: "fault_enumeration",
-		Rule:  "enumerated: build pairs = old file size class {100B, 1 block, 1 block+100, 2 blocks, 2 blocks+100, 3 blocks (thorough: 2 blocks+65535, 3 blocks+1)} x reuse shape {whole-file copy, aligned prefix range, suffix range over the last block, fresh block then all blocks, shifted ranges, partial use then whole-file copy, other block then whole-file copy, whole-file copy twice, whole-file copy then partial use, insertion, second-half-of-block} plus two two-file pairs with an empty file; x {plain patch, optimized patch (rediff, 2 partitions)}; x damage = none | every single damage of the catalogue on every old file (bit flip at first/last byte of every block, byte 1 and byte 32768; truncation to 0, 1, 32768, B-1, B, B+1, 2B, last block boundary, size-1; extension by 1, up to / exactly to / one past the end of the last block, B, B+1; deletion; empty file filled with 1, B, B+1 bytes) | every pair of single damages on two different old files (two-file pairs) | thorough: every pair of single damages of different kinds on one file. Each case: old build copied, damaged, patch applied through pwr.NewSafeKeeper (same pool for patcher and fresh bowl), outcome compared with the new build by an independent Lstat walk. A silently wrong new file is attributed to its damage only if the same file comes out right without damage (else fingerprint damage = already-failing); with two damages, to the single damage that alone reproduces the same wrong content if there is one. Non-trivial = at least one damage hits an old file that the independently decoded patch reads (block range, whole-file copy or bsdiff target); for damage=none: the patch reads at least one old file.",
+		Rule:  "enumerated: build pairs = old file size class {100B, 1 block, 1 block+100, 2 blocks, 2 blocks+100, 3 blocks (thorough: 2 blocks+65535, 3 blocks+1)} x reuse shape {whole-file copy, aligned prefix range, suffix range over the last block, fresh block then all blocks, shifted ranges, partial use then whole-file copy, other block then whole-file copy, whole-file copy twice, whole-file copy then partial use, insertion, second-half-of-block} plus two two-file pairs with an empty file; x {plain patch, optimized patch (rediff, 2 partitions)}; x damage = none | every single damage of the catalogue on every old file (bit flip at first/last byte of every block, byte 1 and byte 32768; every block replaced by its weak twin - same rolling checksum, other bytes; truncation to 0, 1, 32768, B-1, B, B+1, 2B, last block boundary, size-1; extension by 1, up to / exactly to / one past the end of the last block, B, B+1; deletion; empty file filled with 1, B, B+1 bytes) | every pair of single damages on two different old files (two-file pairs) | thorough: every pair of single damages of different kinds on one file. Each case: old build copied, damaged, patch applied through pwr.NewSafeKeeper (same pool for patcher and fresh bowl), outcome compared with the new build by an independent Lstat walk. A silently wrong new file is attributed to its damage only if the same file comes out right without damage (else fingerprint damage = already-failing); with two damages, to the single damage that alone reproduces the same wrong content if there is one. Non-trivial = at least one damage hits an old file that the independently decoded patch reads (block range, whole-file copy or bsdiff target); for damage=none: the patch reads at least one old file.",
 		Assumptions: []string{
 			"block contents are seeded pseudo-random (VERIF_SEED); a bit flip inverts bit 0 of one byte",
 			"the signature handed to the safekeeper is the one WritePatch produced when the old build was published (diff from an empty build), computed before the damage",
@@ -246,6 +246,12 @@ func singles(path string, size int64) []Dmg {
 	for _, o := range uniq(flips) {
 		out = append(out, Dmg{"flip", path, o})
 	}
+	// weak twin of every block of at least 64 bytes: same rolling checksum, other bytes
+	for j := int64(0); j < nb; j++ {
+		if size-j*B >= 64 {
+			out = append(out, Dmg{"twin", path, j})
+		}
+	}
 	var truncs []int64
 	for _, l := range []int64{0, 1, 32768, B - 1, B, B + 1, 2 * B, size - size%B, size - 1} {
 		if l >= 0 && l < size {
@@ -328,6 +334,22 @@ func applyDamage(dir string, d Dmg, seed int64) (ok bool) {
 		}
 		b[0] ^= 1
 		if _, err := f.WriteAt(b[:], d.N); err != nil {
+			panic(err)
+		}
+	case "twin":
+		if d.N*B+64 > st.Size() {
+			return false
+		}
+		data, err := os.ReadFile(p)
+		if err != nil {
+			panic(err)
+		}
+		end := (d.N + 1) * B
+		if end > int64(len(data)) {
+			end = int64(len(data))
+		}
+		copy(data[d.N*B:end], wh.WeakTwin(data[d.N*B:end]))
+		if err := os.WriteFile(p, data, st.Mode().Perm()); err != nil {
 			panic(err)
 		}
 	case "truncate":
